@@ -329,7 +329,53 @@ Definition pawnsAt (p : position) (fromMask : N) : bool :=
 Definition kingsAt (p : position) (fromMask : N) : bool :=
   negb (N.land (N.lor (ptBB p WKING) (ptBB p BKING)) fromMask =? 0).
 
-(** Position::makeMove *)
+(** Position::makeMove, split into the blocks of the C++ function body *)
+(** "Handle en passant and epSquare" *)
+Definition mmEpBlock (p : position) (m : move) (pc : piece) (prevEpSquare : Z) : position :=
+  if pc =? WPAWN then
+    if (Z.of_N (mto m) =? sqPlus (mfrom m) 16)%Z then
+      let x := sqX (mto m) in
+      if negb (N.land (epMaskW x) (ptBB p BPAWN) =? 0) then setEpSquare p (sqPlus (mfrom m) 8) else p
+    else if (Z.of_N (mto m) =? prevEpSquare)%Z then clearPiece p (toSq (sqPlus (mto m) (-8)))
+    else p
+  else if pc =? BPAWN then
+    if (Z.of_N (mto m) =? sqPlus (mfrom m) (-16))%Z then
+      let x := sqX (mto m) in
+      if negb (N.land (epMaskB x) (ptBB p WPAWN) =? 0) then setEpSquare p (sqPlus (mfrom m) (-8)) else p
+    else if (Z.of_N (mto m) =? prevEpSquare)%Z then clearPiece p (toSq (sqPlus (mto m) 8))
+    else p
+  else p.
+
+(** the capture / pawn move branch *)
+Definition mmCaptureBranch (p : position) (m : move) (pc : piece) (prevEpSquare : Z) : position :=
+  let p := set_halfMoveClock p 0%Z in
+  let p := mmEpBlock p m pc prevEpSquare in
+  (* Perform move *)
+  let p := clearPiece p (mfrom m) in
+  setPiece p (mto m) (if negb (mpromote m =? EMPTY) then mpromote m else pc).
+
+(** "Handle castling" *)
+Definition mmCastleBlock (p : position) (m : move) (fromMask : N) : position :=
+  if kingsAt p fromMask then
+    let k0 := mfrom m in
+    if (Z.of_N (mto m) =? sqPlus k0 2)%Z then movePieceNotPawn p (toSq (sqPlus k0 3)) (toSq (sqPlus k0 1))
+    else if (Z.of_N (mto m) =? sqPlus k0 (-2))%Z then movePieceNotPawn p (toSq (sqPlus k0 (-4))) (toSq (sqPlus k0 (-1)))
+    else p
+  else p.
+
+(** the quiet branch *)
+Definition mmQuietBranch (p : position) (m : move) (fromMask : N) : position :=
+  let p := set_halfMoveClock p (halfMoveClock p + 1)%Z in
+  let p := mmCastleBlock p m fromMask in
+  (* Perform move *)
+  movePieceNotPawn p (mfrom m) (mto m).
+
+(** castle mask, move counter, side to move *)
+Definition mmEpilogue (p : position) (m : move) (wtm : bool) : position :=
+  let p := setCastleMask p (N.land (N.land (castleMask p) (castleSqMask (mfrom m))) (castleSqMask (mto m))) in
+  let p := if negb wtm then set_fullMoveCounter p (fullMoveCounter p + 1)%Z else p in
+  set_whiteMove p (negb wtm).
+
 Definition makeMove (p : position) (m : move) : position * undoInfo :=
   let ui := mkUndo (getPiece p (mto m)) (castleMask p) (epSquare p) (halfMoveClock p) in
   let wtm := whiteMove p in
@@ -340,44 +386,14 @@ Definition makeMove (p : position) (m : move) : position * undoInfo :=
   let prevEpSquare := epSquare p in
   let p := setEpSquare p (-1)%Z in
   let p :=
-    if negb (capP =? EMPTY) || pawnsAt p fromMask then
-      let p := set_halfMoveClock p 0%Z in
-      (* Handle en passant and epSquare *)
-      let p :=
-        if pc =? WPAWN then
-          if (Z.of_N (mto m) =? sqPlus (mfrom m) 16)%Z then
-            let x := sqX (mto m) in
-            if negb (N.land (epMaskW x) (ptBB p BPAWN) =? 0) then setEpSquare p (sqPlus (mfrom m) 8) else p
-          else if (Z.of_N (mto m) =? prevEpSquare)%Z then clearPiece p (toSq (sqPlus (mto m) (-8)))
-          else p
-        else if pc =? BPAWN then
-          if (Z.of_N (mto m) =? sqPlus (mfrom m) (-16))%Z then
-            let x := sqX (mto m) in
-            if negb (N.land (epMaskB x) (ptBB p WPAWN) =? 0) then setEpSquare p (sqPlus (mfrom m) (-8)) else p
-          else if (Z.of_N (mto m) =? prevEpSquare)%Z then clearPiece p (toSq (sqPlus (mto m) 8))
-          else p
-        else p in
-      (* Perform move *)
-      let p := clearPiece p (mfrom m) in
-      setPiece p (mto m) (if negb (mpromote m =? EMPTY) then mpromote m else pc)
-    else
-      let p := set_halfMoveClock p (halfMoveClock p + 1)%Z in
-      (* Handle castling *)
-      let p :=
-        if kingsAt p fromMask then
-          let k0 := mfrom m in
-          if (Z.of_N (mto m) =? sqPlus k0 2)%Z then movePieceNotPawn p (toSq (sqPlus k0 3)) (toSq (sqPlus k0 1))
-          else if (Z.of_N (mto m) =? sqPlus k0 (-2))%Z then movePieceNotPawn p (toSq (sqPlus k0 (-4))) (toSq (sqPlus k0 (-1)))
-          else p
-        else p in
-      (* Perform move *)
-      movePieceNotPawn p (mfrom m) (mto m) in
-  let p := setCastleMask p (N.land (N.land (castleMask p) (castleSqMask (mfrom m))) (castleSqMask (mto m))) in
-  let p := if negb wtm then set_fullMoveCounter p (fullMoveCounter p + 1)%Z else p in
-  (set_whiteMove p (negb wtm), ui).
+    if negb (capP =? EMPTY) || pawnsAt p fromMask then mmCaptureBranch p m pc prevEpSquare
+    else mmQuietBranch p m fromMask in
+  (mmEpilogue p m wtm, ui).
 
-(** Position::unMakeMove *)
-Definition unMakeMove (p : position) (m : move) (ui : undoInfo) : position :=
+(** Position::unMakeMove, split the same way *)
+(** side, pieces on from/to, castle mask, e.p. square, clock, promotion, move counter;
+    returns the position and the piece that moved (a pawn for promotions) *)
+Definition umRestoreBlock (p : position) (m : move) (ui : undoInfo) : position * piece :=
   let p := set_hashKey p (N.lxor (hashKey p) (zk_white zk)) in
   let p := set_whiteMove p (negb (whiteMove p)) in
   let pc := getPiece p (mto m) in
@@ -393,21 +409,31 @@ Definition unMakeMove (p : position) (m : move) (ui : undoInfo) : position :=
       (setPiece p (mfrom m) pc, pc)
     else (p, pc) in
   let p := if negb wtm then set_fullMoveCounter p (fullMoveCounter p - 1)%Z else p in
-  (* Handle castling *)
+  (p, pc).
+
+(** "Handle castling" *)
+Definition umCastleBlock (p : position) (m : move) (pc : piece) : position :=
+  let wtm := whiteMove p in
   let king := if wtm then WKING else BKING in
-  let p :=
-    if pc =? king then
-      let k0 := mfrom m in
-      if (Z.of_N (mto m) =? sqPlus k0 2)%Z then movePieceNotPawn p (toSq (sqPlus k0 1)) (toSq (sqPlus k0 3))
-      else if (Z.of_N (mto m) =? sqPlus k0 (-2))%Z then movePieceNotPawn p (toSq (sqPlus k0 (-1))) (toSq (sqPlus k0 (-4)))
-      else p
-    else p in
-  (* Handle en passant *)
+  if pc =? king then
+    let k0 := mfrom m in
+    if (Z.of_N (mto m) =? sqPlus k0 2)%Z then movePieceNotPawn p (toSq (sqPlus k0 1)) (toSq (sqPlus k0 3))
+    else if (Z.of_N (mto m) =? sqPlus k0 (-2))%Z then movePieceNotPawn p (toSq (sqPlus k0 (-1))) (toSq (sqPlus k0 (-4)))
+    else p
+  else p.
+
+(** "Handle en passant" *)
+Definition umEpBlock (p : position) (m : move) (pc : piece) : position :=
   if (Z.of_N (mto m) =? epSquare p)%Z then
     if pc =? WPAWN then setPiece p (toSq (sqPlus (mto m) (-8))) BPAWN
     else if pc =? BPAWN then setPiece p (toSq (sqPlus (mto m) 8)) WPAWN
     else p
   else p.
+
+Definition unMakeMove (p : position) (m : move) (ui : undoInfo) : position :=
+  let '(p, pc) := umRestoreBlock p m ui in
+  let p := umCastleBlock p m pc in
+  umEpBlock p m pc.
 
 (** Position::computeZobristHash: recomputes hashKey, pHashKey and matId from the board *)
 Definition zobristStep (acc : N * N * Z) (sqp : N * piece) : N * N * Z :=
